@@ -645,6 +645,34 @@ func genSrvState(p *prng, thorough bool, w *bufio.Writer) {
 			g.runSeq([][2]int{x, y})
 		}
 	}
+	// stream-id watermark scenarios (RFC 7540 5.1.1: identifiers only ever increase)
+	// (a) the newest stream, once it has left the closed-stream memory, must not be re-opened
+	g.newConn(300, 0, 0)
+	g.settings()
+	g.next = 1
+	var opened []uint32
+	for i := 0; i < 257; i++ {
+		sid := g.sid()
+		opened = append(opened, sid)
+		g.frame(frameBytes(1, 4, sid, g.hdrBlock(false)))
+	}
+	last := opened[len(opened)-1]
+	g.rst(last, 8) // the newest closes first ...
+	for _, sid := range opened[:256] {
+		g.rst(sid, 8) // ... and 256 later closes push it out of the memory
+	}
+	g.frame(frameBytes(1, 5, last, g.hdrBlock(true)))
+	g.gauges()
+	// (b) a refused stream still uses up its identifier
+	g.newConn(1, 0, 0)
+	g.settings()
+	g.next = 1
+	g.frame(frameBytes(1, 5, 1, g.hdrBlock(true))) // dispatched, fills the only slot
+	g.frame(frameBytes(1, 5, 5, g.hdrBlock(true))) // refused
+	g.done(1, respGen{status: 200, body: "none"})
+	g.frame(frameBytes(1, 5, 3, g.hdrBlock(true))) // below the refused id: not a new stream
+	g.gauges()
+
 	n := 1500
 	if thorough {
 		n = 40000
@@ -1112,6 +1140,11 @@ func genSrvMsg(p *prng, thorough bool, w *bufio.Writer) {
 	for c := 0; c < rounds; c++ {
 		g.newConn(100, 0, 0)
 		g.settings()
+		if c%3 != 0 {
+			g.line("#enc plain")
+		} else {
+			g.line("#enc indexed")
+		}
 		for q := 0; q < 30; q++ {
 			sid := g.sid()
 			var hs []kv
@@ -1143,10 +1176,23 @@ func genSrvMsg(p *prng, thorough bool, w *bufio.Writer) {
 			}
 			bodyLen := []int{0, 0, 3, 3, 5}[p.intn(5)]
 			var trailers []kv
-			if p.chance(1, 5) {
+			if q%10 == 7 { // two content-length fields that disagree
+				hs = []kv{{k: ":method", v: "POST"}, {k: ":scheme", v: "https"}, {k: ":path", v: "/p"}, {k: ":authority", v: "a"},
+					{k: "content-length", v: p.pick([]string{"5", "3", "4"})}, {k: "content-length", v: p.pick([]string{"3", "5"})}}
+				bodyLen = 3
+			}
+			if q%10 == 8 { // pseudo-header in the trailers of a request that has no regular field
+				hs = []kv{{k: ":method", v: "POST"}, {k: ":scheme", v: "https"}, {k: ":path", v: "/p"}}
+				trailers = []kv{{k: ":authority", v: "evil"}}
+				bodyLen = 3
+			} else if p.chance(1, 5) {
 				trailers = []kv{[]kv{{k: "x-t", v: "1"}, {k: ":path", v: "/"}, {k: "X-T", v: "1"}, {k: "connection", v: "x"}, {k: "te", v: "gzip"}}[p.intn(5)]}
 			}
-			block := g.enc.block(p, hs)
+			ep := p
+			if c%3 != 0 {
+				ep = nil // literals without indexing: the verdict does not depend on the dynamic table (F23)
+			}
+			block := g.enc.block(ep, hs)
 			es := bodyLen == 0 && trailers == nil
 			fl := byte(4)
 			if es {
@@ -1162,7 +1208,7 @@ func genSrvMsg(p *prng, thorough bool, w *bufio.Writer) {
 				g.frame(frameBytes(0, fl, sid, []byte("abcde")[:bodyLen]))
 			}
 			if trailers != nil {
-				g.frame(frameBytes(1, 5, sid, g.enc.block(p, trailers)))
+				g.frame(frameBytes(1, 5, sid, g.enc.block(ep, trailers)))
 			}
 			g.done(sid, respGen{status: 200, body: "none"})
 		}
